@@ -1,0 +1,25 @@
+//go:build verif
+
+package linter
+
+// Contracts for the verification machinery under /verif (comment-only file;
+// compiled only with -tags verif, contains no executable code).
+
+//@ func (GoVersion).GreaterOrEqual
+//@   prop C15
+//@   pure
+//@   ensures @numeric-compare result <==> (v.Major == 0 || v.Major > other.Major || (v.Major == other.Major && v.Minor >= other.Minor))
+
+//@ func ParseGoVersion
+//@   prop C15 C19
+//@   ensures @empty-means-all (version == "" || version == "go") ==> (result1 == nil && result0.Major == 0 && result0.Minor == 0)
+//@   ensures @accepted-numeric forall a string, b string :: (isDigits(a) && isDigits(b) && !contains(a, ".") && !contains(b, ".") && (version == a ++ "." ++ b || version == "go" ++ a ++ "." ++ b)) ==> (result1 == nil && result0.Major == toInt(a) && result0.Minor == toInt(b))
+//@   ensures @needs-one-dot (version != "" && version != "go" && result1 == nil) ==> contains(version, ".")
+//@   ensures @error-or-value result1 != nil ==> (result0.Major == 0 && result0.Minor == 0)
+
+//@ func (*CheckerInfo).HasTag
+//@   requires info != nil
+//@   prop C06
+//@   pure
+//@   ensures @has-tag-iff result <==> (exists k int :: 0 <= k && k < len(info.Tags) && info.Tags[k] == tag)
+//@   loop 1 invariant @not-found-yet forall k int :: (0 <= k && k < $i) ==> info.Tags[k] != tag
